@@ -6,7 +6,7 @@ import re
 
 HERE = os.path.dirname(os.path.dirname(os.path.abspath(__file__)))
 rows = []
-for sfx in 'abcde':
+for sfx in 'abcdef':
     for i in range(1, 18):
         sid = 'C%02d%s' % (i, sfx)
         f = os.path.join(HERE, 'seeded', sid, 'meta.json')
